@@ -388,7 +388,7 @@ func writeComputedFieldExpression(w *formatting.IndentedWriter, expression dsl.E
 				return
 			}
 			if targetType.Cases.IsOptional() {
-				fmt.Fprintf(w, "[](auto&& __case_arg__) -> %s {\n", common.TypeSyntax(t.ResolvedType))
+				fmt.Fprintf(w, "[&](auto&& __case_arg__) -> %s {\n", common.TypeSyntax(t.ResolvedType))
 				w.Indented(func() {
 					for i, switchCase := range t.Cases {
 						writeSwitchCaseOverOptional(w, switchCase, "__case_arg__", i == len(targetType.Cases)-1, self)
@@ -406,7 +406,7 @@ func writeComputedFieldExpression(w *formatting.IndentedWriter, expression dsl.E
 			}
 			switch pattern := t.Cases[0].Pattern.(type) {
 			case *dsl.DeclarationPattern:
-				fmt.Fprintf(w, "[]([[maybe_unused]] %s const& %s) -> %s {\n", common.TypeSyntax(pattern.Type), common.FieldIdentifierName(pattern.Identifier), common.TypeSyntax(t.ResolvedType))
+				fmt.Fprintf(w, "[&]([[maybe_unused]] %s const& %s) -> %s {\n", common.TypeSyntax(pattern.Type), common.FieldIdentifierName(pattern.Identifier), common.TypeSyntax(t.ResolvedType))
 				w.Indented(func() {
 					w.WriteString("return ")
 					self.Visit(t.Cases[0].Expression)
